@@ -82,7 +82,7 @@ def runeString (n : Int) : Bytes :=
 def convertKey (kt : Ty) (idx : GoVal) : Option (Option GoVal) :=
   match kt, idx with
   | .str, .str s => some (some (.str s))
-  | .str, .int _ n => some (some (.str (runeString n)))     -- Go's int→string is a rune conversion
+  | .str, .int _ _ => some none                             -- an integer is not converted to a string key (no rune conversion)
   | .int k, .int _ n => if k.inRange n then some (some (.int k n)) else none   -- wrap-around: unmodelled
   | .int k, .flt _ q =>
     (match truncToInt q with
@@ -130,7 +130,6 @@ def indexValue (recv idx : GoVal) : LRes :=
   | .keyedMap kvs =>
     (match i with
      | .str s => .val ((lookupFields kvs s).getD .nil)
-     | .int _ n => .val ((lookupFields kvs (runeString n)).getD .nil)
      | _ => .val .nil)
   | .mapSlice kvs => mapSliceFind kvs i
   | .struct fs | .ptr (.struct fs) =>
